@@ -12,11 +12,11 @@ import common, gen
 from engines import c19_inputs as ci
 
 LEVEL = "proof"
-EXPLANATION = ("Theorems of Props/C18.v are about Effects.step/run: a hand-written effect summary per class (how optimization_options "
-               "is held and which keys are written; everything else is copied or read). Proved: frame for the copying classes and for "
-               "omitted/empty options, frame_refuted for the `x or {}` classes (DESIGN #16), only optimization_options is ever touched, "
-               "caller keys survive, history independence by induction over arbitrary operation lists of heap-preserving operations "
-               "(+ refuted witness), idempotent construction and getters. Thin tie: this engine replays histories and compares snapshots.")
+EXPLANATION = ("Theorems of Props/C18.v are about Effects.step/run: a hand-written effect summary per class of the current code (how "
+               "optimization_options is held; everything else is copied or read). Proved at full strength: frame for every class and argument "
+               "vector, history independence over arbitrary operation lists, idempotent getters; for any summary of this shape only "
+               "optimization_options can be touched and caller keys survive; old_* theorems refute frame / history independence for the "
+               "summary of the code before 5ed9792 (DESIGN #16). Thin tie: this engine replays histories and compares snapshots.")
 ASSUMPTIONS = ["deep snapshots: copy.deepcopy + == on graph nodes/edges/attribute dicts, dicts, lists, and on __init__.__defaults__ of every class",
                "HiGHS with threads=1 is deterministic for identical models (used when the last construction is repeated with fresh arguments)"]
 TRUSTED = ["model: coq/theories/Effects.v; proofs EffectsProofs.v"]
@@ -146,8 +146,6 @@ def run(ctx):
                 "distinct by the operation list and initial dict")
     n_hist = ctx.budget(160, 3000)
     reqs = []; hists = []
-    # a finding marked "fixed" in known_findings.json has its switch off: the model is told that the class does not take the dict
-    fixed = {k["key"].split(":")[0] for k in ctx.known if k.get("property") == ctx.pid and k.get("status") == "fixed" and k["key"].endswith(":mutates:optimization_options")}
     for i in range(n_hist):
         rng = ctx.rng("history", i)
         try:
@@ -176,7 +174,7 @@ def run(ctx):
         res_fresh, _, exc_fresh = run_op(ops[-1], kwf)
         init_keys = [KEYCODE.get(k, 199) for k in init["opts"].keys()]
         reqs.append("effects " + common.toks(len(init_keys), init_keys, len(ops),
-                                             [[ci.CLS_ID[s["op"]["cls"]], s["op"]["pass_opts"] and s["op"]["cls"] not in fixed, s["op"]["sup"], s["has_cons"], s["op"]["solve"]] for s in steps]))
+                                             [[ci.CLS_ID[s["op"]["cls"]], s["op"]["pass_opts"], s["op"]["sup"], s["has_cons"], s["op"]["solve"]] for s in steps]))
         hists.append((i, ops, init, steps, res_fresh, exc_fresh))
     outs = ctx.model.run(reqs)
     for (i, ops, init, steps, res_fresh, exc_fresh), req, out in zip(hists, reqs, outs):
